@@ -80,20 +80,28 @@ def get_facts(config='default', repo=REPO, quiet=True):
         env['RUSTC_WORKSPACE_WRAPPER'] = DRIVER_BIN
         env['CARGO_TARGET_DIR'] = target
         env['CARGO_NET_OFFLINE'] = 'true'
-        env['MIRFACTS_OUT'] = out + '.new'
+        tmp_out = out + f'.new.{os.getpid()}'      # private to this process: runs with another target tag may extract the same tree
+        env['MIRFACTS_OUT'] = tmp_out
         env['MIRFACTS_STAMP'] = h
         env['MIRFACTS_CRATE'] = 'jsonb'
-        if os.path.exists(out + '.new'):
-            os.remove(out + '.new')
-        r = subprocess.run(['cargo', '+nightly', 'check', '--offline'] + CONFIGS[config], cwd=repo, env=env,
-                           stdout=subprocess.PIPE, stderr=subprocess.STDOUT, text=True)
-        if r.returncode != 0:
-            sys.stderr.write(r.stdout[-6000:])
-            raise SystemExit(f'extraction failed: cargo check exited {r.returncode} (does /repo compile?)')
-        if not os.path.exists(out + '.new'):
+        for attempt in (1, 2):
+            if os.path.exists(tmp_out):
+                os.remove(tmp_out)
+            r = subprocess.run(['cargo', '+nightly', 'check', '--offline'] + CONFIGS[config], cwd=repo, env=env,
+                               stdout=subprocess.PIPE, stderr=subprocess.STDOUT, text=True)
+            if r.returncode != 0:
+                sys.stderr.write(r.stdout[-6000:])
+                raise SystemExit(f'extraction failed: cargo check exited {r.returncode} (does /repo compile?)')
+            if os.path.exists(tmp_out) or os.path.exists(out):
+                break
+            # cargo judged the crate fresh and did not run the wrapper: drop the fingerprints and build once more
+            for d in glob.glob(os.path.join(target, 'debug', '.fingerprint', 'jsonb-*')):
+                shutil.rmtree(d, ignore_errors=True)
+        if os.path.exists(tmp_out):
+            os.rename(tmp_out, out)
+        elif not os.path.exists(out):
             sys.stderr.write(r.stdout[-3000:])
             raise SystemExit('extraction failed: the driver wrote no fact file (wrapper skipped?)')
-        os.rename(out + '.new', out)
         # keep the cache small: drop fact files other than the 30 newest
         def _mt(x):
             try:
